@@ -374,6 +374,9 @@ class RandomOp:
         nd = rng.choice([1, 1, 2, 2, 3])
         shape = [rng.randint(1, 7) for _ in range(nd)]
         chunks = jsonable_chunks(rand_chunks(rng, tuple(shape)))
+        if rng.random() < ctx.p_random_auto:
+            chunks = "auto"  # da.random's default: the block grid is resolved against array.chunk-size
+            shape = [rng.randint(3, 8) for _ in range(nd)]
         params = dist_params(rng, dist)
         args = {"gen": gname, "dist": dist, "shape": shape, "chunks": chunks, "params": params}
         # array-valued parameter: param index -> var name (broadcastable, non-negative handled by abs+1)
@@ -1395,6 +1398,7 @@ class Ctx:
         self.p_fine_chunks = 0.0
         self.p_arg_reduction = 0.0
         self.p_closure_fn = 0.25
+        self.p_random_auto = 0.0
         self.p_simlock = 0.0
         self.p_lazy_source = 0.0
         self.p_asarray_false = 0.0
